@@ -58,6 +58,18 @@ func main() {
 			timeOps(o, seed, n)
 		case "go":
 			goOps(o, seed, n)
+		case "fenfuzz":
+			fenFuzzOps(o, seed, n, corpus+"/fens.txt")
+		case "hashdiff":
+			hashdiffOps(o, seed, n, corpus+"/fens.txt")
+		case "ecache":
+			ecacheOps(o, seed, n)
+		case "dialog":
+			dialogOps(o, seed, n, corpus+"/fens.txt")
+		case "timed":
+			timedOps(o, seed, n, corpus+"/fens.txt")
+		case "conc":
+			concOps(o, seed, n)
 		case "search":
 			searchOps(o, seed, n, tier, corpus+"/fens.txt")
 		default:
